@@ -884,7 +884,7 @@ def check_handoff(ck, prog, handoff, cls, STATE, NOTIFY, C):
         args = wctx.args(bb)
         tg = target_of(args[0])
         if tg and tg[0] == "field" and (tg[1], tg[2]) == NOTIFY:
-            wakes.append((bb, const_value(args[1])))
+            wakes.append((bb, const_value(args[1]) if const_value(args[1]) is not None else fold(args[1])))
     ck.ob("C02.7", "writer-wake-on-notify", len(wakes) == 1 and wakes[0][1] is not None and wakes[0][1] >= 1, fn=wwf, detail=f"futex_wake on writer_notify: {wakes}")
     if wakes:
         ck.ob("C02.7", "bump-before-wake", wctx.cfg.dominates(bump[0], wakes[0][0]) and all(wctx.cfg.dominates(wakes[0][0], rb) for rb in wctx.cfg.return_blocks()), fn=wwf,
@@ -897,6 +897,9 @@ def check_handoff(ck, prog, handoff, cls, STATE, NOTIFY, C):
             unsigned0 = isinstance(r, tuple) and r[0] == "bin" and isinstance(r[3], tuple) and r[3][0] == "const" and str(r[3][3]).startswith("u")
             if isinstance(r, tuple) and r[0] == "bin" and (r[1] == "Ne" or (r[1] == "Gt" and unsigned0)) and const_value(r[3]) == 0:
                 good = any(x[0] == "call" and x[1] in locks.WAKE_WRAPPERS for x in walk(r[2]))
+            # ... or hands the woken count itself to its caller (which then tests it against 0)
+            if not good and any(x[0] == "call" and x[1] in locks.WAKE_WRAPPERS for x in walk(r)) and not any(x[0] == "bin" for x in walk(r)):
+                good = "count"
         ck.ob("C02.7", "writer-wake-reports-woken", good, fn=wwf, detail="wake_writer must return whether a writer was actually woken (woken != 0)")
     # in the hand-off: CAS clearing WW -> followed by writer wake on all paths
     n_clear_w = n_clear_r = 0
@@ -907,6 +910,26 @@ def check_handoff(ck, prog, handoff, cls, STATE, NOTIFY, C):
         if ce is None:
             # expected is the state variable compared against a constant just before: use the dominating equality
             ce = dominating_eq_const(ctx, bb, op.args[0])
+        if cn is None:
+            # the new value computed from the state word, whose value the dominating equality fixes (`state & !WRITERS_WAITING` under
+            # `state == READERS_WAITING | WRITERS_WAITING`)
+            def ev(e, depth=0):
+                e = strip_casts(e)
+                v = fold(e)
+                if v is not None or not isinstance(e, tuple) or depth > 8:
+                    return v
+                if e[0] == "var":
+                    return dominating_eq_const(ctx, bb, e)
+                if e[0] == "bin" and e[1] in ("BitAnd", "BitOr", "BitXor", "Add", "Sub"):
+                    a_, b_ = ev(e[2], depth + 1), ev(e[3], depth + 1)
+                    if a_ is None or b_ is None:
+                        return None
+                    return {"BitAnd": a_ & b_, "BitOr": a_ | b_, "BitXor": a_ ^ b_, "Add": (a_ + b_) & 0xFFFFFFFF, "Sub": (a_ - b_) & 0xFFFFFFFF}[e[1]]
+                if e[0] == "un" and e[1] == "Not":
+                    a_ = ev(e[2], depth + 1)
+                    return None if a_ is None else (~a_) & 0xFFFFFFFF
+                return None
+            cn = ev(op.args[1])
         if ce is None or cn is None:
             ck.ob("C02.7", f"handoff-cas-constant|{canon_args(op)}", False, fn=handoff, site=ctx.site(bb), detail="hand-off CAS operands are not constants (cannot pair cleared bits with wakes)")
             continue
